@@ -29,13 +29,20 @@ for thm, fn, model in sorted(found):
     t1, t2 = terms.get(fn, ""), terms2.get(fn, "")
     if (thm == "tie" and (not t1 or t1.startswith(".unsupported"))) or (thm == "tie2" and (not t2 or t2.startswith(".unsupported"))):
         sys.exit("no translated source for %s" % fn)
-    out[fn] = {"sha1": hashlib.sha1((t1 + "|" + t2).encode()).hexdigest(), "model": "JS." + model, "thm": thm}
+    out[fn] = {"sha1": hashlib.sha1((t1 + "|" + t2).encode()).hexdigest(), "model": "JS." + model, "thm": thm, "term": t1 + "|" + t2}
 # the type predicates of _types.py (JS/Props/TieTypes.lean): all tied to the model through TyFn.apply
 import translate_types  # noqa: E402
 for name, term in translate_types.translate_all(os.environ.get("JS_REPO", "/repo")):
     if term.startswith(".unsupported"):
         sys.exit("no translated source for the predicate %s" % name)
-    out["_types." + name] = {"sha1": hashlib.sha1(term.encode()).hexdigest(), "model": "JS.TyFn.apply"}
+    out["_types." + name] = {"sha1": hashlib.sha1(term.encode()).hexdigest(), "model": "JS.TyFn.apply", "term": term}
+# the generator methods of the validator class (JS/Props/TieMethods.lean)
+import translate_methods  # noqa: E402
+for name, term in translate_methods.translate_all(os.environ.get("JS_REPO", "/repo")):
+    if term.startswith(".unsupported"):
+        sys.exit("no translated source for the method %s" % name)
+    out["_methods." + name] = {"sha1": hashlib.sha1(term.encode()).hexdigest(), "term": term,
+                               "model": {"iter_errors": "JS.evalStep", "descend": "JS.descendG"}[name]}
 path = os.path.join(ROOT, "lean", "JS", "Proofs", "TieFingerprints.json")
 with open(path, "w") as f:
     json.dump(out, f, indent=1, sort_keys=True)
